@@ -463,6 +463,7 @@ pub fn run(ctx: &Ctx) -> ! {
     }
     let mut schedules = 0u64;
     let mut steps = 0u64;
+    let mut sys_states = 0u64;
     let mut states: BTreeSet<String> = BTreeSet::new();
     let mut per = Vec::new();
     let bound = 2;
@@ -471,10 +472,11 @@ pub fn run(ctx: &Ctx) -> ! {
         let out = explore(&envs, sys, bound, false, None, &judge, &outcome, if thorough { 30_000 } else { 4_000 });
         schedules += out.schedules;
         steps += out.steps;
+        sys_states += out.distinct_states;
         for o in &out.outcomes {
             states.insert(format!("{name}#{o}"));
         }
-        per.push(json!({"programs": name, "preemption_bound": bound, "schedules": out.schedules, "distinct_outcomes": out.outcomes.len(), "max_points": out.max_points}));
+        per.push(json!({"programs": name, "preemption_bound": bound, "schedules": out.schedules, "distinct_outcomes": out.outcomes.len(), "distinct_system_states": out.distinct_states, "max_points": out.max_points}));
         let mut vs = out.violations;
         vs.sort_by_key(|v| v.detail["history"]["schedule"].as_array().map_or(0, Vec::len));
         let mut seen: BTreeSet<String> = BTreeSet::new();
@@ -485,14 +487,15 @@ pub fn run(ctx: &Ctx) -> ! {
         }
     }
     let mut rep = Report::new("model_checking");
-    rep.set("states", states.len() as u64)
-        .set("transitions", steps)
+    rep.set("states", sys_states + seq_runs)
+        .set("distinct_outcomes", states.len() as u64)
+        .set("transitions", steps + seq_runs)
         .set("schedules", schedules)
         .set("traces_validated_against_impl", schedules + seq_runs)
         .set("sequential_runs", seq_runs)
         .set("per_program_pair", Value::Array(per))
         .set("samples", json!([{"sequential":{"hub":"hub-f","ssh":true,"sequence":["fX","fY","fX+dgZ"]}},{"concurrent": specs[0].0}]))
-        .set("explanation", "(a) every sequence of <= 2 (quick) / <= 3 (thorough) sequential `copia hub-sync` runs with local trees from {f:X},{f:Y},{f:X,d/g:Z},{} against hubs {}, {f:c0}, {h:c0}, through both target forms (local path: the client spawns its own serve; host:root through the ssh stand-in), each followed by an immediate second run; (b) two REAL hub-sync client processes whose `serve` children are interleaved by the E4 scheduler at every libc call on the hub tree within the preemption bound — this produces the stale-listing window (client 2 commits between client 1's List and its Put). `states` = distinct (exit codes, counters, final hub paths) outcomes.");
+        .set("explanation", "(a) every sequence of <= 2 (quick) / <= 3 (thorough) sequential `copia hub-sync` runs with local trees from {f:X},{f:Y},{f:X,d/g:Z},{} against hubs {}, {f:c0}, {h:c0}, through both target forms (local path: the client spawns its own serve; host:root through the ssh stand-in), each followed by an immediate second run; (b) two REAL hub-sync client processes whose `serve` children are interleaved by the E4 scheduler at every libc call on the hub tree within the preemption bound — this produces the stale-listing window (client 2 commits between client 1's List and its Put). `states` = sequential runs + distinct (hub tree, per-server progress, lock holder) system states of the concurrent part; `distinct_outcomes` = distinct (exit codes, counters, final hub paths) results.");
     rep.assume("clients are free-running real processes; a server's read of its stdin is released only once its client is blocked waiting for the reply, which makes the byte stream seen by the server deterministic");
     finish(ctx, rep, violations);
 }
